@@ -229,7 +229,16 @@ fn error_json(ctx: &Context, err: &NumbatError, render: bool) -> Map<String, J> 
     };
     m.insert("stage".into(), json!(stage));
     m.insert("kind".into(), json!(kind));
-    m.insert("msg".into(), json!(err.to_string()));
+    // Display impls format numbers and units (numbat code): a panic there is an observation
+    match catch_unwind(AssertUnwindSafe(|| err.to_string())) {
+        Ok(msg) => {
+            m.insert("msg".into(), json!(msg));
+        }
+        Err(_) => {
+            m.insert("msg".into(), json!("<panic while formatting the error message>"));
+            m.insert("msg_panic".into(), take_panic());
+        }
+    }
     if let NumbatError::RuntimeError(e) = err {
         m.insert(
             "backtrace".into(),
@@ -485,9 +494,19 @@ fn op_eval(ctx: &mut Context, req: &J) -> J {
         }
         Ok(Err(e)) => {
             m.insert("ok".into(), json!(false));
-            m.insert("status".into(), json!("err"));
-            for (k, v) in error_json(ctx, &e, render) {
-                m.insert(k, v);
+            // formatting the error message runs numbat code as well (Display impls): observe panics there
+            match catch_unwind(AssertUnwindSafe(|| error_json(ctx, &e, render))) {
+                Ok(ej) => {
+                    m.insert("status".into(), json!("err"));
+                    for (k, v) in ej {
+                        m.insert(k, v);
+                    }
+                }
+                Err(_) => {
+                    m.insert("status".into(), json!("panic"));
+                    m.insert("panic".into(), take_panic());
+                    m.insert("panic_in".into(), json!("error_display"));
+                }
             }
             prints_json(&mut m);
         }
